@@ -58,6 +58,7 @@ def lex2? (w : String) : Option Lex2 :=
   | [("ur", _), (_, some [u]), (_, some (h :: hs))] => some (.urange u h hs)
   | [("cmt", _), (_, some body)] => some (.cmt body)
   | [("cdc", _)] => some .cdc
+  | [("nums", _), (_, some sg), (_, some (d :: ds))] => some (.numS sg d ds)
   | [("numf", _), (_, some sg), (_, some ip), (_, some (d :: ds))] => some (.numF sg ip d ds)
   | [("uri2", _), (_, some [u]), (_, some (h :: hs)), (_, some (h2 :: hs2))] => some (.urangeI u h hs h2 hs2)
   | [("identu", _), (_, some (u :: cs))] => some (.identU u cs)
